@@ -270,11 +270,15 @@ type op struct {
 	// AddFace: face #0 of the Copy-th parse of corpus file File, added under Location{File: ID}
 	// with description {Family, Aspect}. AddFont: the bytes of corpus file File, fileID ID,
 	// familyName Family.
-	File   string   `json:"file,omitempty"`
-	Copy   int      `json:"copy,omitempty"`
-	ID     string   `json:"id,omitempty"`
-	Family string   `json:"family,omitempty"`
-	Aspect *aspectJ `json:"aspect,omitempty"`
+	File string `json:"file,omitempty"`
+	Copy int    `json:"copy,omitempty"`
+	ID   string `json:"id,omitempty"`
+	// AddFace only: the other fields of the Location (same File, other Index/Instance = another
+	// location; the harness must not always pass them in their trivial zero form)
+	Index    uint16   `json:"index,omitempty"`
+	Instance uint16   `json:"instance,omitempty"`
+	Family   string   `json:"family,omitempty"`
+	Aspect   *aspectJ `json:"aspect,omitempty"`
 
 	Families []string `json:"families,omitempty"` // SetQuery (with Aspect); nil = Query without families
 	// Shared: the caller re-uses an argument it owns across calls. SetQuery: the families are
@@ -354,6 +358,8 @@ type machine struct {
 	// with whatever slice, must make the map follow the content it is given.
 	dirty   bool
 	readers map[string]*bytes.Reader
+
+	lastFaceID string // Location.File of the last AddFace
 }
 
 func discard() *log.Logger { return log.New(io.Discard, "", 0) }
@@ -387,7 +393,7 @@ func addTo(fm *fontscan.FontMap, o op, rd *bytes.Reader) ([]entry, error) {
 		if err != nil {
 			return nil, err
 		}
-		loc := fontscan.Location{File: o.ID}
+		loc := fontscan.Location{File: o.ID, Index: o.Index, Instance: o.Instance}
 		md := font.Description{Family: o.Family, Aspect: o.Aspect.aspect()}
 		fm.AddFace(faces[0], loc, md)
 		c := f.cov[0]
@@ -688,7 +694,7 @@ func (m *machine) show(idx int) string {
 		return "nil"
 	}
 	e := m.db[idx]
-	return fmt.Sprintf("#%d[%s %q %v]", idx, e.Loc.File, e.Family, e.Aspect)
+	return fmt.Sprintf("#%d[%s:%d:%d %q %v]", idx, e.Loc.File, e.Loc.Index, e.Loc.Instance, e.Family, e.Aspect)
 }
 
 func equalInts(a, b []int) bool {
@@ -845,7 +851,22 @@ func (m *machine) nextID(ext string) string {
 func (m *machine) actions() map[string]func(*rapid.T) {
 	addFace := func(t *rapid.T) {
 		file := pick(t, "faceFile", facePoolFiles)
-		o := op{Op: "AddFace", File: file, Copy: m.nextCopy[file], ID: m.nextID(pick(t, "ext", fileExts)),
+		id := m.nextID(pick(t, "ext", fileExts))
+		var index, instance uint16
+		if k := rapid.IntRange(0, 9).Draw(t, "locationKind"); k < 3 && m.lastFaceID != "" {
+			// the File of the previous face again: the locations differ by Index / Instance only
+			id = m.lastFaceID
+			if k == 0 {
+				index = uint16(m.seq)
+			} else {
+				instance = uint16(m.seq)
+			}
+			m.label("addface_same_file_other_index")
+		} else if k == 3 {
+			index, instance = uint16(m.seq), uint16(rapid.IntRange(0, 3).Draw(t, "instance"))
+		}
+		m.lastFaceID = id
+		o := op{Op: "AddFace", File: file, Copy: m.nextCopy[file], ID: id, Index: index, Instance: instance,
 			Family: m.genFamily(t, false), Aspect: toJ(m.genFaceAspect(t))}
 		m.nextCopy[file]++
 		m.apply(t, o)
